@@ -959,6 +959,14 @@ func (c *lchain) oraclesAfterApply(cs, ns consensus.State, b types.Block, bs con
 			case *types.V2FileContractExpiration:
 				wantH = fc.MissedHostOutput()
 				forfeit.Add(forfeit, new(big.Int).Sub(fc.HostOutput.Value.Big(), fc.MissedHostValue.Big()))
+				if fc.MissedHostValue.Cmp(fc.HostOutput.Value) > 0 {
+					// the expiry pays the host more than the contract holds: value is created
+					key := "c01.value-created-at-expiry"
+					if c.n.HardforkV2.EphemeralOutputHeight > c.n.HardforkV2.AllowHeight {
+						key = "known.F11" // the revision was accepted in the legacy window below EphemeralOutputHeight
+					}
+					r.violate(key, "expiration of v2 contract %v pays the host its missed value %v although the contract holds only %v for the host: %v created", res.Parent.ID, fc.MissedHostValue, fc.HostOutput.Value, fc.MissedHostValue.Sub(fc.HostOutput.Value))
+				}
 			}
 			ro, ok1 := created[res.Parent.ID.V2RenterOutputID()]
 			ho, ok2 := created[res.Parent.ID.V2HostOutputID()]
